@@ -3,7 +3,7 @@ every container->container transfer (incl. nested) + the broadcast clause (conta
 n*q) + composition drift over long chains."""
 from __future__ import annotations
 
-from .common import shard, run_cases, BASE_ASSUMPTIONS, repo_suite, repo_suite_job, under_density_configs
+from .common import under_display_configs, shard, run_cases, BASE_ASSUMPTIONS, repo_suite, repo_suite_job, under_density_configs
 
 ID = 'C02'
 LEVEL = 'exploration'
@@ -32,6 +32,9 @@ def plan(tier, seed):
     # the same histories under the documented non-default densities (a fraction of the budget)
     n_cfg = 24 if tier == 'quick' else 400
     jobs = jobs + under_density_configs(shard('history', n_cfg, 2 if tier == 'quick' else 8))
+    # a fraction of the budget under other documented configurations (display units / precisions, storage units with
+    # unequal prefixes)
+    jobs = jobs + under_display_configs(shard('history', 20, 2) + shard('chain', 10, 1) if tier == 'quick' else shard('history', 300, 8) + shard('chain', 100, 4))
     if tier != 'quick' or False:
         jobs = jobs + repo_suite_job()
     return jobs
